@@ -51,6 +51,7 @@ package storage
 //@   modifies ghost.commits ghost.last_batch ghost.last_err ghost.batch_open ghost.floor ghost.floor_set
 //@   ensures [count] commits == old(commits)+1 && last_batch == self && last_err == err && !batch_open
 //@   ensures [conflicts-are-objects] typeis(err, "*storage.Conflict") ==> asptr(err, "*storage.Conflict") != nil
+//@   ensures [unknown-outcome-is-no-failed-condition] err_is(err, ErrUncertainResult) ==> !err_is(err, ErrCASFailed) && err != nil
 //@   ensures [floor-untouched] !(old(bw_n)[self] >= 1 && is_compact_key(old(bw_key)[self][0])) ==> floor == old(floor) && floor_set == old(floor_set)
 //@   ensures [floor-failed] err != nil && !err_is(err, ErrUncertainResult) ==> floor == old(floor) && floor_set == old(floor_set)
 //@   ensures [floor-put] err == nil && old(bw_n)[self] >= 1 && is_compact_key(old(bw_key)[self][0]) && old(bw_kind)[self][0] == 3 ==> floor_set && floor == be64_of(old(bw_val)[self][0])
@@ -113,3 +114,30 @@ package storage
 //@ func Iter.Close() (err)
 //@   assumed
 //@   pure
+
+// ---- error classification (C09, C11) ----
+// the sentinels are distinct non-nil values (proved from the package initialiser)
+//@ global [sentinels-non-nil] ErrUnsupported != nil && ErrKeyNotFound != nil && ErrKeyDuplicated != nil && ErrCASFailed != nil && ErrUnexpectedRet != nil && ErrUnavailable != nil && ErrUncertainResult != nil
+//@ global [sentinels-distinct] ErrCASFailed != ErrKeyNotFound && ErrCASFailed != ErrUncertainResult && ErrKeyNotFound != ErrUncertainResult && ErrCASFailed != ErrUnavailable && ErrKeyNotFound != ErrUnavailable && ErrUncertainResult != ErrUnavailable
+
+// a conflict matches exactly ErrCASFailed
+//@ func (*Conflict).Is(err) (result)
+//@   props C09 C11
+//@   ensures [cas-failed-only] result == (err == ErrCASFailed)
+
+// an unknown outcome matches ErrUncertainResult and whatever the wrapped error matches
+//@ func (*errUncertainResult).Is(err) (result)
+//@   props C09
+//@   ensures [uncertain-or-origin] result == (err == ErrUncertainResult || err_is(e.originErr, err))
+
+//@ func NewErrUncertainResult(originErr) (result)
+//@   props C09
+//@   ensures [wraps] typeis(result, "*storage.errUncertainResult") && asptr(result, "*storage.errUncertainResult") != nil && asptr(result, "*storage.errUncertainResult").originErr == originErr
+//@   ensures [is-uncertain] err_is(result, ErrUncertainResult)
+// what else it matches is what the wrapped error matches: errors.Is consults the Is method proved above
+//@   assume_ensures [matches-like-origin] err_is(result, ErrCASFailed) == err_is(originErr, ErrCASFailed)
+
+//@ func NewErrConflict(idx, key, val) (result)
+//@   props C09 C11
+//@   ensures [conflict] typeis(result, "*storage.Conflict") && asptr(result, "*storage.Conflict") != nil && asptr(result, "*storage.Conflict").Idx == idx && asptr(result, "*storage.Conflict").Val == val
+//@   ensures [is-a-failed-condition] err_is(result, ErrCASFailed) && !err_is(result, ErrUncertainResult) && !err_is(result, ErrKeyNotFound)
